@@ -148,17 +148,22 @@ func (g *renderer) body(s int, ind string, skipDecls bool) {
 			}
 		}
 	}
-	bodyRefs := 0
+	evalCalls := 0
 	for _, ch := range g.children[s] {
 		g.scope(ch, ind)
 	}
 	for k, rf := range g.c.Refs {
 		if rf.Scope == s && rf.Pos == "body" {
-			fmt.Fprintf(sb, "%s%s;\n", ind, g.refExpr(k))
-			bodyRefs++
+			x := g.refExpr(k)
+			fmt.Fprintf(sb, "%s%s;\n", ind, x)
+			if strings.Contains(x, "eval(") {
+				evalCalls++
+			}
 		}
 	}
-	if g.c.Scopes[s-1].Ev && bodyRefs == 0 {
+	// a scope with ev = TRUE always contains a direct eval in its body (references to
+	// free names are rendered as plain identifiers, so they do not count)
+	if g.c.Scopes[s-1].Ev && evalCalls == 0 {
 		fmt.Fprintf(sb, "%seval(\"0\");\n", ind)
 	}
 }
@@ -668,7 +673,10 @@ func inputKind(c *caseT) string {
 //   - class-expr-name-in-eval-scope: the name of a class expression whose
 //     body contains direct eval (all differing references resolve to it);
 //   - block-function-in-class-body: a function declared in a block inside a
-//     class body of a sloppy script (all differing references have its name).
+//     class body of a sloppy script (all differing references have its name);
+//   - with-pinned-block-function-and-its-hoisted-var: a sloppy block-level
+//     function referenced through "with" and the output does not parse because
+//     its name is declared twice.
 func causeOf(c *caseT, cf config, bad []int, errText string) string {
 	anc := func(s int) []int {
 		var out []int
@@ -733,6 +741,27 @@ func causeOf(c *caseT, cf config, bad []int, errText string) string {
 			for _, e := range c.Decls {
 				if top && e.Kind == "fun" && e.Name == d.Name && c.Scopes[e.Scope-1].Kind == "file" {
 					return "tree-shaken-function-shares-symbol-with-block-function"
+				}
+			}
+		}
+	}
+	// a sloppy block-level function that is referenced through "with" (pinned): esbuild
+	// rewrites it to "let f = function(){}; var f = f", the block-level symbol normally
+	// gets another name than the hoisted var, but a pinned one keeps it
+	if c.Sloppy && strings.Contains(errText, "has already been declared") {
+		for _, d := range c.Decls {
+			if d.Kind != "fun" || !blockLike(c.Scopes[d.Scope-1].Kind) || !strings.Contains(errText, "Identifier '"+d.Name+"' has already been declared") {
+				continue
+			}
+			inCls := false
+			for _, a := range anc(d.Scope) {
+				if c.Scopes[a-1].Kind == "cls" {
+					inCls = true
+				}
+			}
+			for k := range c.Refs {
+				if y := c.Res[k]; !inCls && c.ViaWith[k] && y > 0 && c.Syms[y-1].S == d.Scope && c.Syms[y-1].N == d.Name && c.Syms[y-1].Lvl == "m" {
+					return "with-pinned-block-function-and-its-hoisted-var"
 				}
 			}
 		}
@@ -1153,16 +1182,16 @@ func Run(r *core.Run) {
 			runProps(r)
 		}
 	}()
-	// (2) trees generated by TLC (seeded random walks, in rounds until the time
-	// budget of the tier is used: the machine is shared and TLC's speed varies),
-	// replayed through the real esbuild
+	// (2) trees generated by TLC (seeded random walks), replayed through the real
+	// esbuild.  The number of rounds and the walks per round are fixed per tier:
+	// the set of trees is a function of VERIF_SEED only, never of the machine's
+	// speed (a loaded machine takes longer, it does not check less).
 	st := &stats{byCoinc: map[string]int{}, byConfig: map[string]int{}, rejectedWhy: map[string]int{}}
 	seen := map[string]bool{}
 	total := 0
 	walks := r.Pick(400, 800)
 	procs := r.Pick(2, 3)
-	budget := time.Duration(r.Pick(70, 780)) * time.Second
-	maxRounds := r.Pick(6, 40)
+	maxRounds := r.Pick(6, 24)
 	if v := os.Getenv("VERIF_C15_WALKS"); v != "" { // developer knobs
 		fmt.Sscan(v, &walks)
 	}
@@ -1189,7 +1218,7 @@ func Run(r *core.Run) {
 			}
 			units = append(units, &unit{idx: total + len(units), raw: raw, c: &c, hash: h})
 		}
-		// rounds grow: the first one is small so that a loaded machine still finishes in time
+		// rounds grow (fixed schedule): the first ones are small so that a problem shows early
 		w := walks * (round + 1) / 2
 		if w > walks*2 {
 			w = walks * 2
@@ -1207,9 +1236,6 @@ func Run(r *core.Run) {
 		process(r, units, st)
 		r.Logf("round %d: %d new trees (%d so far, %d configurations, %d executions, %d violations, %d drift), %.0fs", round+1, len(units), total,
 			st.configsRun, st.executions, r.Violations(), st.drift, time.Since(t0).Seconds())
-		if r.Elapsed()+time.Since(t0)*8/10 > budget {
-			break
-		}
 	}
 	wg.Wait()
 	r.AddTraces(int64(st.executions + cexSt.executions))
